@@ -108,8 +108,15 @@ Definition row_out (c : csv_ctx) (mr : meta_row) : result out_row :=
                do pam_range <- mk_range pr_start pr_end;
                if negb (rs pam_range =? mr_alt_pos mr) || negb (re pam_range =? alt_ref_end) then
                  do pam_codon_ref <- psubstr (cx_alt c) (rs pam_range) (re pam_range);
-                 do codon_ref <- psubstr (cx_seq c) (rs pam_range) (re pam_range);
-                 do pam_alt <- psubstr (mkPSeq (mkSeq ref_start (mr_oligo mr)) None)
+                 (* the extended range is in background coordinates: lifted back to cut the unprotected reference *)
+                 do refr <- match cx_gpo c with
+                            | None => Ok (rs pam_range, re pam_range)
+                            | Some g => do a <- alt_to_ref_position g (rs pam_range);
+                                        do b <- alt_to_ref_position g (re pam_range);
+                                        match a, b with Some a, Some b => Ok (a, b) | _, _ => Err AssertionError end
+                            end;
+                 do codon_ref <- psubstr (cx_seq c) (fst refr) (snd refr);
+                 do pam_alt <- psubstr (mkPSeq (mkSeq (s_start (p_seq (cx_alt c))) (mr_oligo mr)) None)
                                        (rs pam_range) (re pam_range + (zlen (mr_alt mr) - zlen (mr_ref mr)));
                  let drop_nt := true in     (* extended alleles are never empty: no anchor nucleotide *)
                  do prs <- match cx_gpo c with
